@@ -13,8 +13,8 @@ UNITS = [
          why_assumed="f64 arithmetic and str ordering: decided by the Kani harness (scalar kernel, full i64/f64 domain) and the bounded back end (strings)",
          requires=[("singular", NOT_REFS)],
          ensures=[("def", "r == val_lt(denote(lhs.data), denote(rhs.data))")]),
-    Unit(name="Comparison::process", file=F, impl="impl Query for Comparison", fn="process", order=41,
-         trait_method=True, serves=["C04", "C05"],
+    Unit(name="Comparison::process", calls=['Comparable::process'], file=F, impl="impl Query for Comparison", fn="process", order=41,
+         trait_method=True, serves=["C04"],
          impl_extra="""
     open spec fn process_pre<'a, T: Queryable>(&self, state: State<'a, T>) -> bool { wf_cmp(*self) && is_cur(state) }
     open spec fn process_rel<'a, T: Queryable>(&self, state: State<'a, T>, r: State<'a, T>) -> bool {
